@@ -23,16 +23,17 @@ import (
 )
 
 type rtEvent struct {
-	Ev    string `json:"ev"` // identify protoupd lookup cancelled-lookup refresh advance health close-refresh fixlow (one pass of the low-peers repair over the connected peers)
-	Peer  int    `json:"peer,omitempty"`
-	Proto bool   `json:"proto,omitempty"` // identify/protoupd: the peer advertises the DHT protocol
-	Conn  bool   `json:"conn,omitempty"`
-	Key   int    `json:"key,omitempty"`
-	Force bool   `json:"force,omitempty"`
-	Dial  string `json:"dial,omitempty"` // health: "" ok | fail
-	Req   string `json:"req,omitempty"`  // health: "" ok | fail | silent
-	Ms    int    `json:"ms,omitempty"`
-	Min   int    `json:"min,omitempty"`
+	Ev     string `json:"ev"` // identify protoupd lookup cancelled-lookup refresh advance health close-refresh fixlow (one pass of the low-peers repair over the connected peers)
+	Peer   int    `json:"peer,omitempty"`
+	Proto  bool   `json:"proto,omitempty"` // identify/protoupd: the peer advertises the DHT protocol
+	Conn   bool   `json:"conn,omitempty"`
+	Key    int    `json:"key,omitempty"`
+	Force  bool   `json:"force,omitempty"`
+	Dial   string `json:"dial,omitempty"` // health: "" ok | fail
+	Req    string `json:"req,omitempty"`  // health: "" ok | fail | silent
+	Ms     int    `json:"ms,omitempty"`
+	Min    int    `json:"min,omitempty"`
+	GoneMs int    `json:"gone_ms,omitempty"` // identify with Proto: this long afterwards (while the admission probe may be in flight) the peer stops advertising the protocol
 }
 
 type rtSc struct {
@@ -56,7 +57,7 @@ type interaction struct {
 
 func runRT(t *testing.T, sc *rtSc) (res verifsim.Result) {
 	pp := ppool()
-	admissionThenEviction, cancelledWithFailures := 0, 0
+	admissionThenEviction, cancelledWithFailures, goneDuringProbe := 0, 0, 0
 	out := verifsim.Bubble(t, func() {
 		s := &lkSc{K: sc.K, Alpha: sc.Alpha, Beta: sc.Beta, Self: sc.Self, Peers: sc.Peers}
 		self := s.selfID()
@@ -282,6 +283,15 @@ func runRT(t *testing.T, sc *rtSc) (res verifsim.Result) {
 				} else {
 					emPU.Emit(event.EvtPeerProtocolsUpdated{Peer: p})
 				}
+				if ev.Proto && ev.GoneMs > 0 {
+					// the peer turns into a client (identify push) while it is being probed
+					time.Sleep(time.Duration(ev.GoneMs) * time.Millisecond)
+					h.Peerstore().SetProtocols(p, "/other/1.0.0")
+					goneAt[p] = len(sim.Log())
+					advertises[p] = false
+					emPU.Emit(event.EvtPeerProtocolsUpdated{Peer: p})
+					goneDuringProbe++
+				}
 			case "lookup":
 				d.GetClosestPeers(context.Background(), kpoolS().IDs[ev.Key%simPool])
 			case "cancelled-lookup":
@@ -343,6 +353,9 @@ func runRT(t *testing.T, sc *rtSc) (res verifsim.Result) {
 	if admissionThenEviction > 0 {
 		res.Class("admission-then-eviction")
 	}
+	if goneDuringProbe > 0 {
+		res.Class("protocol-dropped-during-probe")
+	}
 	if cancelledWithFailures > 0 {
 		res.Class("cancelled-lookup-with-failures")
 	}
@@ -390,7 +403,11 @@ func TestVerif_C12_RoutingTable(t *testing.T) {
 				p := rapid.IntRange(0, n-1).Draw(t, "peer")
 				switch rapid.IntRange(0, 13).Draw(t, "kind") {
 				case 0, 1, 2, 3:
-					return rtEvent{Ev: "identify", Peer: p, Proto: rapid.IntRange(0, 4).Draw(t, "proto") != 0, Conn: rapid.Bool().Draw(t, "conn")}
+					ev := rtEvent{Ev: "identify", Peer: p, Proto: rapid.IntRange(0, 4).Draw(t, "proto") != 0, Conn: rapid.Bool().Draw(t, "conn")}
+					if ev.Proto && verifsim.Chance(t, "goneDuringProbe", 20) {
+						ev.GoneMs = rapid.SampledFrom([]int{1, 10, 100, 1000, 5000}).Draw(t, "goneMs")
+					}
+					return ev
 				case 4:
 					return rtEvent{Ev: "protoupd", Peer: p, Proto: rapid.Bool().Draw(t, "proto")}
 				case 5, 6, 7:
